@@ -1,8 +1,9 @@
 #!/bin/bash
 # Runs the repository's pinned suite with the verif guard OFF and reports pass/fail counts.
 export GOFLAGS=-mod=mod GOPROXY=off GOSUMDB=off GOTOOLCHAIN=local
+R=${1:-/repo}
 fail=0
 for m in api/v3 api/v3alpha util/maven util/pypi util/resolve util/semver; do
-  (cd /repo/$m && go test -vet=off -count=1 -timeout 25m ./... 2>&1) | grep -v "^ok\|no test files" && fail=1
+  (cd $R/$m && go test -vet=off -count=1 -timeout 25m ./... 2>&1) | grep -v "^ok\|no test files" && fail=1
 done
 if [ $fail = 0 ]; then echo "BASELINE OK"; else echo "BASELINE FAILED"; exit 1; fi
